@@ -70,7 +70,7 @@ def run(ctx):
                 "without_exp_check_zero_exp_never_expires", "atLeastOne_rule_admits_two_signatures",
                 "fact_auth_selector_is_url_path", "fact_auth_skipper_negated", "fact_auth_path", "fact_auth_installed_with_use",
                 "fact_internal_binds", "fact_policy", "fact_best_practices_conditions", "fact_acceptable_algs_asymmetric",
-                "fact_registered_first_segments", "fact_default_addresses_differ", "fact_auth_types", "configure_auth_sound",
+                "fact_registered_first_segments", "fact_route_first_segments_ast", "fact_default_addresses_differ", "fact_auth_types", "configure_auth_sound",
                 "fact_authorized_keys", "authorized_keys_sound", "commented_out_line_is_dead", "text_after_hash_is_ignored",
                 "fact_middleware_stateless", "decision_independent_of_history", "fact_middleware_order",
                 "fact_middleware_handler_is_a_fresh_closure", "fact_matches_path_is_a_plain_prefix_test",
